@@ -88,12 +88,20 @@ func (m *msgRun) rows(c int, n int, r *rand.Rand) []message.VerifCompatRow11 {
 	for i := range out {
 		m.nextID++
 		out[i] = message.VerifCompatRow11{
-			MessageID: m.nextID, ClientMsgNo: fmt.Sprintf("n%d", r.IntN(6)), FromUID: vh.Pick(r, "u1", "u2"),
+			MessageID: m.nextID, ClientMsgNo: cno(m.nextID, r), FromUID: vh.Pick(r, "u1", "u2"),
 			ChannelID: chanIDs[c], ChannelType: chanTypes[c], Payload: vh.Bytes(r, r.IntN(6)),
 			ServerTimestampMS: 1_700_000_000_000 + int64(m.nextID), FramerFlags: uint8(r.IntN(2) * 4),
 		}
 	}
 	return out
+}
+
+// cno: mostly unique client message numbers (a reused one makes the append an idempotency conflict)
+func cno(id uint64, r *rand.Rand) string {
+	if r.IntN(10) == 0 {
+		return fmt.Sprintf("n%d", r.IntN(4))
+	}
+	return fmt.Sprintf("m%d", id)
 }
 
 // history ops ------------------------------------------------------------------------------------
